@@ -199,7 +199,7 @@ def bounded(tier, seed, R):
     with W.TmpDir() as tmp:
         for wb in wbs:
             for origin in W.ORIGINS:
-                hs = W.histories(rnd, wb, n_hist, length)
+                hs = W.histories(rnd, wb, n_hist, length) + W.directed_histories(rnd, wb, limit=20 if not thorough else 60)
                 if wb.name == 'float-noise':
                     hs.append([('eval', 'B1'), ('set', 'A1', 100.0004), ('eval', 'B1'), ('eval', 'B2')])
                     hs.append([('eval', 'B1'), ('set', 'A2', 1e-9), ('eval', 'B2')])
